@@ -4,6 +4,8 @@ CONSTANTS
   Ideal = 2
   MaxCommits = 2
   Crashes = TRUE
+  WriteFailures = TRUE
+  Dedup = FALSE
   Order = "post"
 INVARIANTS TypeOK Closed DurableKept NothingLost
 PROPERTY AppendOnly
